@@ -61,7 +61,7 @@ func runC05(r *Result, d *drv.Driver, tier string, seed int64, replay string) {
 	if tier == "thorough" {
 		nValid = 600
 	}
-	r.Rule = fmt.Sprintf("per-call allocation (runtime.MemStats.TotalAlloc delta) of the real Decode on: valid messages; every item position of every message (string, bytes, structure, skipped, fixed) with its declared length replaced by each of {0, 1, 2^16, 2^20, 2^30, 2^31, 2^32-8, 2^32-1}, with and without truncating the input right after that header, and the same with every enclosing structure's length inflated consistently (so the lying item fits its parents); long values lying about their length while backed by 4-12 KiB of real payload; random mutations; honest messages of 64 KiB, 512 KiB and 4 MiB (long byte string, long text string, long run of items) whose per-byte cost must not grow with their size (<= 4x the 64 KiB value + 8). "+
+	r.Rule = fmt.Sprintf("per-call allocation (runtime.MemStats.TotalAlloc delta) of the real Decode on: valid messages; every item position of every message (string, bytes, structure, skipped, fixed) with its declared length replaced by each of {0, 1, 2^16, 2^20, 2^30, 2^31, 2^32-8, 2^32-1}, with and without truncating the input right after that header, the same lie under another item type (structure / text / bytes), and the same with every enclosing structure's length inflated consistently (so the lying item fits its parents); long values lying about their length while backed by 4-12 KiB of real payload; random mutations; honest messages of 64 KiB, 512 KiB and 4 MiB (long byte string, long text string, long run of items) whose per-byte cost must not grow with their size (<= 4x the 64 KiB value + 8). "+
 		"Violation: allocation > %d x input length + %d bytes (the model's linear bound with A = %d). distinct = distinct input; non-trivial = carries a hostile length", allocA, allocB, allocA)
 	types := allDecodeTypes()
 	g := gen.New(seed)
@@ -77,6 +77,24 @@ func runC05(r *Result, d *drv.Driver, tier string, seed int64, replay string) {
 				inputs = append(inputs, decInput{typ: in.typ, data: b, origin: fmt.Sprintf("hostile-len:type%d", nd.Typ)})
 				// the same, with the stream ending right after the lying header (a message of a few bytes)
 				inputs = append(inputs, decInput{typ: in.typ, data: b[:nd.Off+8], origin: fmt.Sprintf("hostile-len-cut:type%d", nd.Typ)})
+				// the same lie under ANOTHER item type (a string position announcing a structure, a structure position announcing a
+				// string, an integer announcing bytes): whatever special-cases a (tag, type) pair must not trust the length either
+				if hl >= 1<<16 {
+					for _, ty := range []byte{1, 7, 8} {
+						if ty == nd.Typ {
+							continue
+						}
+						for _, l2 := range []uint32{hl, hl &^ 7} {
+							t := append([]byte(nil), b...)
+							t[nd.Off+3] = ty
+							binary.BigEndian.PutUint32(t[nd.Off+4:], l2)
+							inputs = append(inputs, decInput{typ: in.typ, data: t, origin: fmt.Sprintf("hostile-type:type%d-as-%d", nd.Typ, ty)})
+							if l2 == hl {
+								break
+							}
+						}
+					}
+				}
 				// lengths that agree with each other: every enclosing structure lies as well (so the lying item "fits")
 				if nd.Parent != nil && hl >= 1<<16 {
 					c := append([]byte(nil), b...)
@@ -97,7 +115,7 @@ func runC05(r *Result, d *drv.Driver, tier string, seed int64, replay string) {
 				}
 			}
 		}
-		if len(inputs) > 40000 && tier != "thorough" {
+		if len(inputs) > 60000 && tier != "thorough" {
 			break
 		}
 	}
